@@ -286,7 +286,8 @@ def run(rep):
     # translator: ViewNumber/EpochNumber/BlockNumber next/prev regenerated from the source; Properties/C05Gen.v proves
     # them equal to the model's num_next
     import rust2coq
-    translator, gen_files = rust2coq.step(["numbers"], ["theories/Properties/C05Gen.v"], broken)
+    # ... and the replica state machine itself: handler guards, state updates and effects in program order (C05Gen2/3.v)
+    translator, gen_files = rust2coq.step(rust2coq.REPLICA_STEP, rust2coq.REPLICA_PROPS, broken)
     po = common.proof_obligations(PROP_FILES + gen_files)
     po["files"] = PROP_FILES + gen_files
     if not po["ok"]:
